@@ -21,7 +21,7 @@ CHECKS = {
             "property-based round-trip testing (proptest) over the three option pairings, expectation model computed from the spec",
             "Generated forests restricted to XML-supported types and XML-1.0-legal characters (incl. ']]>', markup, CR/LF, whitespace-only) are written "
             "by rbx_xml and read back under default/default, WriteUnknown+ReadUnknown and NoReflection+NoReflection; the decoded DOM is compared with "
-            "an expectation computed from the spec (floats bit-exact unless NaN); a fixed list of large cases (long text / base64 / shared strings / sequences, > 64 Ki instances, and the table / name / smallest-value cases of C01); from_str / *_default entry points and the three option call chains must agree; DoesNotSerialize properties are a side-check "
+            "an expectation computed from the spec (floats bit-exact unless NaN); a fixed list of large cases (long text / base64 / shared strings / sequences, > 64 Ki instances, and the table / name / smallest-value cases of C01); database-known properties of every class holding a value of another type than declared (outside rbx_xml's documented conversions) must come back unchanged; from_str / *_default entry points and the three option call chains must agree; DoesNotSerialize properties are a side-check "
             "(dropped, or kept as an unknown property, nothing else changes). Sampling: absence of counter-examples among N cases.",
             "trusts: proptest, the harness's database resolver (cross-checked in C16)",
             "DESIGN.md 2/C02"),
